@@ -271,6 +271,10 @@ class IntegratorScipyDop853(Integrator):
             if dt:
                 t = min(self._ode_solver.t + dt, t)
             self._ode_solver.integrate(t)
+            if 0 < t - self._ode_solver.t <= 2 * np.spacing(abs(t)):
+                # dop853 ends with `x + (xend - x)` and can stop one rounding
+                # error before `t`; a further step over that gap would fail.
+                self._ode_solver.t = t
         else:
             # While DOP853 support changing the direction of the integration,
             # it does not do so efficiently. We do it manually.
